@@ -5,7 +5,8 @@
    site configuration):
        SP US TAB          space, underscore, a whitespace character that is not a space (edges only)
        COLON              ":"
-       LRM RLM            U+200E / U+200F (edges of the whole title only — the property's quantifier)
+       LRM RLM            U+200E / U+200F at the edges of the whole title and at the leading edge of the
+                          remainder (after the namespace colon / after a leading colon, mixed with blanks)
        l u o              a cased lower-case letter, a cased upper-case letter, an uncased letter
        lc                 "l, capitalised where the site says so" (occurs only in canonical names)
        ns(n,kind,cs,sep)  a name of namespace n: kind in local / canonical / alias, spelled in letter
@@ -93,14 +94,15 @@ Norm(flat, d) ==
   LET s0 == IF StripOrder = "joint" THEN StripT(flat, WS \cup MK) ELSE StripT(flat, WS)
       s1 == Collapse(s0)
       colon == s1 # <<>> /\ s1[1].t = "COLON"
-      s2 == IF colon THEN StripLT(Tail(s1), {"SP"}) ELSE s1
+      Inner == IF StripOrder = "joint" THEN {"SP"} \cup MK ELSE {"SP"}      \* junk after a colon
+      s2 == IF colon THEN StripLT(Tail(s1), Inner) ELSE s1
       d2 == IF colon /\ ColonForcesMain THEN "main" ELSE d
       hasNs == /\ Len(s2) >= 2
                /\ s2[1].t = "ns"
                /\ \/ s2[2].t = "COLON"
                   \/ (Len(s2) >= 3 /\ s2[2].t = "SP" /\ s2[3].t = "COLON")
       after == IF hasNs
-               THEN StripLT(SubSeq(s2, (IF s2[2].t = "COLON" THEN 3 ELSE 4), Len(s2)), {"SP"})
+               THEN StripLT(SubSeq(s2, (IF s2[2].t = "COLON" THEN 3 ELSE 4), Len(s2)), Inner)
                ELSE s2
       rem0 == IF StripOrder = "joint" THEN after ELSE StripT(after, MK)
   IN [ns |-> (IF hasNs THEN s2[1].ns ELSE d2), rem |-> CapFirst(rem0)]
@@ -180,6 +182,14 @@ EdgeMark ==
      \/ Step([sp EXCEPT !.lead = <<At(m)>> \o sp.lead], <<"EdgeMark", "front", m>>)
      \/ Step([sp EXCEPT !.trail = sp.trail \o <<At(m)>>], <<"EdgeMark", "back", m>>)
 
+InnerMark ==                         \* a mark at the leading edge of the remainder: "User:<LRM>x", ":<LRM>x"
+  /\ Bounded
+  /\ \E m \in Marks :
+       \/ /\ sp.lc # <<>>
+          /\ Step([sp EXCEPT !.lc = sp.lc \o <<At(m)>>], <<"InnerMark", "after-leading-colon", m>>)
+       \/ /\ sp.pfx # <<>>
+          /\ Step([sp EXCEPT !.pfx = sp.pfx \o <<At(m)>>], <<"InnerMark", "after-ns-colon", m>>)
+
 LeadingColon ==                      \* only where it does not change the meaning
   /\ Bounded
   /\ sp.lc = <<>>
@@ -204,7 +214,7 @@ DropDefaultPrefix ==                 \* "foo" with defaultns=10 means Template:f
   /\ Step([sp EXCEPT !.pfx = <<>>], <<"DropDefaultPrefix">>)
 
 Next == \/ RecaseNs \/ SwapNsName \/ NsInnerBlank \/ SpaceToUnderscore \/ DoubleSpace
-        \/ PadEdges \/ EdgeMark \/ LeadingColon \/ SpaceAroundColon \/ DropDefaultPrefix
+        \/ PadEdges \/ EdgeMark \/ InnerMark \/ LeadingColon \/ SpaceAroundColon \/ DropDefaultPrefix
 Spec == Init /\ [][Next]_vars
 
 -----------------------------------------------------------------------------
@@ -213,8 +223,11 @@ Canonical == Norm(Flat(sp), dflt) = Canon(seed)
 Fixpoint  == \A d \in {"main", "A", "C"} :
                (seed.ns # "main" \/ d = "main") => Norm(Full(Canon(seed)), d) = Canon(seed)
 Idempotent == LET c == Norm(Flat(sp), dflt) IN Norm(Full(c), IF c.ns = "main" THEN "main" ELSE dflt) = c
-\* marks only ever sit at the edges of the whole title
-MarksAtEdges == \A f \in {"lc", "pfx", "rem"} : \A i \in DOMAIN sp[f] : sp[f][i].t \notin MK
+\* marks only ever sit at the edges of the whole title or after a colon, at the remainder's leading edge
+MarksAtEdges ==
+  /\ \A i \in DOMAIN sp.rem : sp.rem[i].t \notin MK
+  /\ \A i \in DOMAIN sp.lc : sp.lc[i].t \in MK => i > 1
+  /\ \A i \in DOMAIN sp.pfx : sp.pfx[i].t \in MK => i > ColonPos(sp.pfx, 1)
 
 -----------------------------------------------------------------------------
 Code(a) == IF a.t = "ns" THEN <<a.ns, a.kind, a.cs, a.sep>> ELSE a.t
